@@ -15,10 +15,16 @@ LEVEL = 'other'
 KNOWN = {}
 
 
-def frame_obligations(res):
+def frame_obligations(res, prefixes=None):
+    """Kit F obligations; `prefixes` restricts them to state owned by / sites located in the given modules."""
     from pyvc import frames
     from contracts import kit_f
     objs, sites, defaults = frames.inventory(common.REPO)
+    if prefixes:
+        hit = lambda name: any(name == p or name.startswith(p + '.') for p in prefixes)
+        objs = {q: d for q, d in objs.items() if hit(q)}
+        sites = [s for s in sites if hit(s.obj) or hit(s.where)]
+        defaults = [d for d in defaults if hit(d.where)]
     failed = []
     n = 0
     for q, desc in sorted(objs.items()):
